@@ -13,7 +13,7 @@ import (
 )
 
 func TestVerif_C03(t *testing.T) {
-	tr := kit.Open("C03-sniff")
+	tr := kit.Open("C03-z-sniff")
 	defer tr.Close()
 	c17InitHellos()
 	r := kit.Rand(37)
